@@ -55,6 +55,10 @@ class _LoopContinue(Exception):
     pass
 
 
+class _InlineExit(Exception):
+    """Leaves the `with __inline__:` block that the normaliser made of an expanded helper call (the helper's `return`)."""
+
+
 class CannotFold(AnalysisError):
     pass
 
@@ -439,7 +443,15 @@ class Program:
                     recv_ = None
                 if isinstance(recv_, Abstract) and callable(getattr(recv_, fn.attr, None)):
                     args_ = [f(a) for a in node.args]
-                    kw_a = {k.arg: f(k.value) for k in node.keywords if k.arg}
+                    kw_a = {}
+                    for k in node.keywords:
+                        if k.arg is None:
+                            splat_a = f(k.value)
+                            if not isinstance(splat_a, dict):
+                                raise CannotFold(f"**splat not foldable: {unparse(node)[:60]}")
+                            kw_a.update(splat_a)
+                        else:
+                            kw_a[k.arg] = f(k.value)
                     try:
                         return getattr(recv_, fn.attr)(*args_, **kw_a)
                     except (TypeError, ValueError) as ex_:
@@ -501,6 +513,21 @@ class Program:
                 return env[fn.id](*[f(a) for a in node.args], **{k.arg: f(k.value) for k in node.keywords if k.arg})          # a rule-supplied callable bound to a local
             if env is not None and cname in env.get("__stubs__", {}):
                 return env["__stubs__"][cname](f, node)          # an abstract callee supplied by the rule (gets the folder and the call)
+            if cname == "next" and len(node.args) in (1, 2) and not node.keywords:
+                src_ = node.args[0]
+                if isinstance(src_, ast.GeneratorExp):
+                    src_ = ast.copy_location(ast.ListComp(elt=src_.elt, generators=src_.generators), src_)
+                seq_ = f(src_)
+                if isinstance(seq_, (list, tuple)):
+                    if seq_:
+                        return seq_[0]
+                    if len(node.args) == 2:
+                        return f(node.args[1])
+                    if env is not None and env.get("__strict__"):
+                        err_ = EvalError(f"`{unparse(node)[:60]}` raises StopIteration")
+                        err_.raised = "StopIteration"          # type: ignore[attr-defined]
+                        raise err_
+                raise CannotFold(f"next not foldable: {unparse(node)[:60]}")
             if cname == "len" and len(node.args) == 1:
                 return len(f(node.args[0]))
             if cname in ("str", "int", "bool", "abs") and len(node.args) == 1 and not node.keywords:
@@ -849,6 +876,12 @@ class Program:
                 err_ = EvalError(f"raises {unparse(exc_) if exc_ is not None else 'the active exception'}")
                 err_.raised = unparse(exc_) if exc_ is not None else None          # type: ignore[attr-defined]
                 raise err_
+            elif isinstance(st, ast.With) and len(st.items) == 1 and isinstance(st.items[0].context_expr, ast.Name) and st.items[0].context_expr.id == "__inline__":
+                try:
+                    self._propagate(mod, st.body, env, who, depth + 1)
+                except _InlineExit as ex_:
+                    if ex_.args and hasattr(st, "_inline_block") and ex_.args[0] != getattr(st, "_inline_block"):
+                        raise
             elif isinstance(st, ast.With) and env.get("__strict__") is not None and all(isinstance(i.optional_vars, (ast.Name, type(None))) for i in st.items):
                 for i_ in st.items:          # evaluation mode: the context object is what the (stubbed) call returns; no exit handling
                     cv_ = self.fold(mod, i_.context_expr, env)
@@ -856,6 +889,8 @@ class Program:
                         env[i_.optional_vars.id] = cv_
                 self._propagate(mod, st.body, env, who, depth + 1)
             elif isinstance(st, ast.Break):
+                if hasattr(st, "_inline_exit"):
+                    raise _InlineExit(getattr(st, "_inline_exit"))
                 raise _LoopBreak()
             elif isinstance(st, ast.Continue):
                 raise _LoopContinue()
